@@ -2,6 +2,7 @@ package java
 
 import (
 	"fmt"
+	"strconv"
 	"strings"
 
 	"github.com/grafana/cog/internal/ast"
@@ -279,12 +280,12 @@ func (tf *typeFormatter) formatAssignmentPath(resourceRoot string, fieldPath ast
 
 func (tf *typeFormatter) formatRefType(destinationType ast.Type, value any) string {
 	if !destinationType.IsRef() {
-		return fmt.Sprintf("%#v", value)
+		return tf.formatLiteral(destinationType, value)
 	}
 
 	referredObj, found := tf.context.LocateObjectByRef(destinationType.AsRef())
 	if !found {
-		return fmt.Sprintf("%#v", value)
+		return tf.formatLiteral(destinationType, value)
 	}
 
 	if referredObj.Type.IsEnum() {
@@ -293,6 +294,43 @@ func (tf *typeFormatter) formatRefType(destinationType ast.Type, value any) stri
 
 	if referredObj.Type.IsStructGeneratedFromDisjunction() {
 		return tf.formatDisjunctionValue(referredObj, value)
+	}
+
+	return tf.formatLiteral(destinationType, value)
+}
+
+// formatLiteral writes a value as a literal of the type it is meant for:
+// `1` is not a `Long`, `2` is not a `Double`.
+func (tf *typeFormatter) formatLiteral(destinationType ast.Type, value any) string {
+	resolved := tf.context.ResolveRefs(destinationType)
+	if value == nil || !resolved.IsScalar() {
+		return fmt.Sprintf("%#v", value)
+	}
+
+	switch kind := resolved.AsScalar().ScalarKind; kind {
+	case ast.KindInt8, ast.KindUint8, ast.KindInt16, ast.KindUint16, ast.KindInt32, ast.KindUint32, ast.KindInt64, ast.KindUint64:
+		return formatType(kind, value)
+	case ast.KindFloat32, ast.KindFloat64:
+		var number float64
+		switch v := value.(type) {
+		case float64:
+			number = v
+		case float32:
+			number = float64(v)
+		default:
+			number = float64(tools.AnyToInt64(value))
+		}
+
+		// every digit of the value is kept
+		literal := strconv.FormatFloat(number, 'f', -1, 64)
+		if !strings.Contains(literal, ".") {
+			literal += ".0"
+		}
+		if kind == ast.KindFloat32 {
+			literal += "f"
+		}
+
+		return literal
 	}
 
 	return fmt.Sprintf("%#v", value)
